@@ -257,7 +257,8 @@ def splice(caller, bb, callee):
     blk = caller.blocks[bb]
     for i, a in enumerate(call['args']):
         blk['stmts'].append({'dst': {'l': loff + 1 + i, 'proj': []}, 'rv': {'k': 'use', 'ops': [a]}, 'line': line, 'col': call.get('col'), 'exp': False})
-    blk['term'] = {'k': 'goto', 'target': boff, 'line': line, 'col': call.get('col'), 'exp': False, 'inlined': callee.path}
+    blk['term'] = {'k': 'goto', 'target': boff, 'line': line, 'col': call.get('col'), 'exp': False, 'inlined': callee.path,
+                   'inlined_dst': call.get('dst'), 'inlined_args': list(call.get('args', []))}
 
 
 THEN = ('core::bool::<impl bool>::then', 'std::bool::<impl bool>::then')
@@ -1238,17 +1239,17 @@ def thread_jumps(b, rounds=4):
                     kv = known.get(ct['on']['p']['l'])
                     if kv and kv[0] == 'const':
                         v = int(kv[1]) if isinstance(kv[1], bool) else kv[1]
-                        resolved = ct['otherwise']
+                        resolved, via = ct['otherwise'], [cur, 'otherwise']
                         for tv, tb in ct['targets']:
                             if tv == v:
-                                resolved = tb
+                                resolved, via = tb, [cur, tv]
                 break
             if resolved is None:
                 continue
             base = len(b.blocks)
             for i, sg in enumerate(segs):
                 if sg['term'] is None:
-                    sg['term'] = {'k': 'goto', 'target': resolved, 'line': t.get('line'), 'col': t.get('col'), 'exp': False, 'threaded': True}
+                    sg['term'] = {'k': 'goto', 'target': resolved, 'line': t.get('line'), 'col': t.get('col'), 'exp': False, 'threaded': True, 'threaded_via': via}
                 else:
                     sg['term'] = dict(sg['term'], target=base + i + 1)
                 b.blocks.append({'stmts': sg['stmts'], 'cleanup': False, 'term': sg['term']})
